@@ -92,25 +92,25 @@ impl<const A: usize, const L: usize> World<A, L> {
                     }
                     Op::Place { id, ev } => {
                         if *ev {
-                            m.process_event(Event::New { order_id: (*a, *id) })
+                            m.process_event(Event::New { order_id: (*a, *id) });
                         } else {
-                            m.place_order((*a, *id))
+                            m.place_order((*a, *id));
                         }
                         Ret::Unit
                     }
                     Op::Cancel { id, ev } => {
                         if *ev {
-                            m.process_event(Event::Cancellation { order_id: (*a, *id) })
+                            m.process_event(Event::Cancellation { order_id: (*a, *id) });
                         } else {
-                            m.cancel_order((*a, *id))
+                            m.cancel_order((*a, *id));
                         }
                         Ret::Unit
                     }
                     Op::Modify { id, price, vol, ev } => {
                         if *ev {
-                            m.process_event(Event::Modify { order_id: (*a, *id), new_price: *price, new_vol: *vol })
+                            m.process_event(Event::Modify { order_id: (*a, *id), new_price: *price, new_vol: *vol });
                         } else {
-                            m.modify_order((*a, *id), *price, *vol)
+                            m.modify_order((*a, *id), *price, *vol);
                         }
                         Ret::Unit
                     }
